@@ -255,6 +255,36 @@ def flush_lookups(ctx, pending):
     del pending[:]
 
 
+STALE = "C12-stale-completion-event-crashes-next-execution"
+
+
+def run_same_scheduler(ctx, G, R, name, expr, sx, reply, seed):
+    """execution 2 on the SAME Scheduler object: jobs still in flight when execution 1 failed complete before run() returns
+    (executor.stop() waits for them) and their completion events stay queued; the next execution must not be disturbed"""
+    outs, has_unk = G.parse_outs(reply)
+    ctl = R.RecCtl(rng=random.Random(seed))
+    sched = R.fresh_scheduler(ctl)
+    e = R.clone(expr)
+    o1, _, _ = R.run_ctl(e, seed, sched=sched, ctl=ctl)
+    left = len(ctl.inflight)
+    while ctl.inflight:                 # what LocalExecutor.stop() amounts to: running jobs finish, done_job/reject_job enqueue
+        ctl.complete_next()
+    o2, _, _ = R.run_ctl(e, seed, sched=sched, ctl=ctl)
+    ctx.count("same-scheduler", "stale-completions=%d" % min(left, 3))
+    for k, o in ((1, o1), (2, o2)):
+        if o in outs or has_unk:
+            continue
+        sig = STALE if (k == 2 and left and o[0] == "err" and o[1] == "KeyError" and o[2].startswith("!(Job(")) else \
+            "C12-same-scheduler-outcome-differs"
+        case = {"program": name, "expr": sx, "execution": k, "schedule_seed": seed, "same_scheduler": True, "stale_completions": left}
+        ctx.mismatch("outcome of execution %d on a reused Scheduler is not among the outcomes the rules allow" % k, case=case,
+                     model=sorted(map(G.show, outs)), impl=G.show(o), signature=sig)
+        ctx.violation(sig, "a later execution on the same Scheduler object does not evaluate the workflow (completion events of "
+                      "jobs that were still running when the earlier execution failed are processed by it)", case=case,
+                      expected=sorted(map(G.show, outs)), actual=G.show(o), kind="history")
+    ctx.case(key=("same", sx) if left else None, mode="same-scheduler", outcome1=o1[0], outcome2=o2[0])
+
+
 def run_two(ctx, G, R, name, expr, sx, reply, seed, pending, probe_all=False):
     outs, has_unk = G.parse_outs(reply)
     sched = R.fresh_scheduler()
@@ -340,6 +370,10 @@ def run_two(ctx, G, R, name, expr, sx, reply, seed, pending, probe_all=False):
     for rec in all_log:
         if "ctype" not in rec or rec.get("context"):
             continue
+        if rec["facts"][2] is True:
+            ctx.mismatch("the Evaluation (single reduction) table holds an ErrorValue: set_cache was called for a failure",
+                         case={"program": name, "expr": sx, "task": rec["task"]}, model="never written", impl="ErrorValue row",
+                         signature="C12-error-in-evaluation-table")
         lines.append("(checkcache %s %s %s %s %s %s %s %s)" % ((rec["scope"], rec["cv"]) + tuple(map(b, rec["allowed"])) +
                                                                  tuple(map(fact_sx, rec["facts"]))))
         expect.append(("check_cache", rec, "%s %s" % (rec["ctype"], fact_sx(rec["is_err"]))))
@@ -404,6 +438,8 @@ def run(ctx):
     pending = []
     for i, ((name, e, sx), rep) in enumerate(zip(progs, replies)):
         run_two(ctx, G, R, name, e, sx, rep, rng.getrandbits(30), pending, probe_all=(i % max(1, len(progs) // n_all) == 0))
+        if i % 3 == 0 or name in ("in-list", "two-different", "same-call-twice"):
+            run_same_scheduler(ctx, G, R, name, e, sx, rep, rng.getrandbits(30))
     flush_lookups(ctx, pending)
 
 
@@ -419,6 +455,8 @@ def replay(ctx, case):
     rep = ctx.model("C01", ["(eval i%d %s)" % (FUEL, sx2)])[0]
     print("replay program:", sx2[:500])
     print("model outcomes:", rep[:500])
+    if c.get("same_scheduler"):
+        return run_same_scheduler(ctx, G, R, c.get("program", "replay"), e, sx2, rep, c.get("schedule_seed", 0))
     pending = []
     run_two(ctx, G, R, c.get("program", "replay"), e, sx2, rep, c.get("schedule_seed", 0), pending, probe_all=True)
     flush_lookups(ctx, pending)
